@@ -2,4 +2,5 @@ import Cgm.Lemmas.AuditCmd
 import Cgm.Props.C07
 import Cgm.Props.C07b
 import Cgm.Props.C07c
+import Cgm.Props.C07d
 #audit_namespace Cg.C07
